@@ -1,1 +1,2 @@
-def main : IO Unit := IO.println "driver C08: not built yet"
+/-! C08 uses the driver of C07 (`drv_c07`: the same client model, hostile scripts). -/
+def main : IO Unit := IO.println "C08 uses drv_c07"
